@@ -204,17 +204,21 @@ Proof. intros. unfold aresps. now rewrite flat_map_app. Qed.
 
 Definition nview (n : node) :=
   (queue n, wait_reply n, wait_commit n, hist n, applied n, enabled_ver n, self_ver n, local_ctr n,
-   log n, stored (sr n)).
+   log n, stored (sr n), pid (sr n), cur_id (sr n)).
 
 (* the full view: callback tables, user state, log, stored snapshot, Fired outputs *)
 Definition view_of (s : S) :=
   (queue (nd s), wait_reply (nd s), wait_commit (nd s), hist (nd s), applied (nd s),
    enabled_ver (nd s), self_ver (nd s), local_ctr (nd s), fired (outs s),
-   log (nd s), stored (sr (nd s)), aresps (outs s)).
+   log (nd s), stored (sr (nd s)), aresps (outs s), pid (sr (nd s)), cur_id (sr (nd s))).
 
 Lemma view_of_eq : forall s s', nview (nd s) = nview (nd s') -> fired (outs s) = fired (outs s') ->
   aresps (outs s) = aresps (outs s') -> view_of s = view_of s'.
-Proof. unfold view_of, nview. intros s s' H F A. injection H as -> -> -> -> -> -> -> -> -> ->. now rewrite F, A. Qed.
+Proof. unfold view_of, nview. intros s s' H F A. injection H as -> -> -> -> -> -> -> -> -> -> -> ->. now rewrite F, A. Qed.
+
+Lemma view_inv_sr : forall s s', view_of s = view_of s' ->
+  pid (sr (nd s)) = pid (sr (nd s')) /\ cur_id (sr (nd s)) = cur_id (sr (nd s')).
+Proof. unfold view_of. intros s s' H. injection H. auto. Qed.
 
 Lemma view_inv : forall s s', view_of s = view_of s' ->
   queue (nd s) = queue (nd s') /\ wait_reply (nd s) = wait_reply (nd s') /\
